@@ -159,12 +159,14 @@ def features(beh):
         f.add('snapshot')
     if 'TakeOver' in acts:
         f.add('takeover')
+    if 'StepDown' in acts:
+        f.add('stepdown')
     return ','.join(sorted(f)) or '-'
 
 
 def nontrivial(beh):
     acts = {s['a'] for s in beh['steps']}
-    return 'CommitOp' in acts and bool(acts & {'PublishFail', 'Crash', 'TakeOver', 'Snapshot'})
+    return 'CommitOp' in acts and bool(acts & {'PublishFail', 'Crash', 'TakeOver', 'Snapshot', 'StepDown'})
 
 
 def run_shard(behaviours, d, k, out, timeout):
@@ -287,9 +289,11 @@ def conformance(rep, behaviours, trace):
 
 
 DESIGN = {
-    'quick': [('MC_Activity.cfg', False), ('MC_Activity_cc.cfg', False), ('MC_Activity_live.cfg', False)],
+    'quick': [('MC_Activity.cfg', False), ('MC_Activity_cc.cfg', False), ('MC_Activity_step.cfg', False),
+              ('MC_Activity_live.cfg', False)],
     'thorough': [('MC_Activity.cfg', True), ('MC_Activity_cc.cfg', True), ('MC_Activity_live.cfg', False),
-                 ('MC_Activity_thorough.cfg', False), ('MC_Activity_cc_thorough.cfg', False)],
+                 ('MC_Activity_step.cfg', False), ('MC_Activity_thorough.cfg', False),
+                 ('MC_Activity_cc_thorough.cfg', False), ('MC_Activity_step_thorough.cfg', False)],
 }
 
 
